@@ -1,31 +1,61 @@
-def ob(fn, unwind=50, timeout=600, bounds='', **kw):
-    d = {'fn': fn, 'unwind': unwind, 'timeout': timeout, 'bounds': bounds, 'diff_runs': 300}
+ALLW = ['exit path', 'end', 'same pointer redirected again after another one', 'all enabled', 'one enabled among several', 'reset',
+        'removed the head', 'removed the second', 'name not in the chain']
+def ob(fn, need, unwind=50, timeout=600, bounds='', **kw):
+    d = {'fn': fn, 'unwind': unwind, 'timeout': timeout, 'bounds': bounds, 'diff_runs': 100, 'optional_witness': [w for w in ALLW if w not in need]}
     d.update(kw)
     return d
-KF = ('; EXCLUDED (known finding KF_C17_1): removing a plugin at chain depth >= 3 (third from the head or deeper)')
+KF = '; EXCLUDED (known finding KF_C17_1): removing a plugin at chain depth >= 3 (third from the head or deeper)'
+EN = 'disable pattern of the plugins symbolic'
+NAMES = ['"a"', '"b"', '"c"', '"d"', '"z" (nobody has it)', 'the empty name (nobody has it)']
+def restore(pre, **kw):
+    return ob('harness_ptr_restore_%d' % pre, ['end', 'same pointer redirected again after another one'],
+              bounds='%d earlier redirections in the table (table index %d), then 3 redirections with symbolic targets among the 2 pointers and a filler (so 0..3 redirections of the 2 pointers, repeats and interleavings included), new values and original values fully symbolic (64-bit); post action called directly or through the plugin chain (symbolic)' % (pre, pre), **kw)
+def limit(n, **kw):
+    return ob('harness_ptr_limit_%d' % n, ['end'] if n <= 32 else ['exit path'],
+              bounds='%d redirections in one test, target of each symbolic among 2 pointers, values symbolic; documented limit 32' % n, **kw)
+def remove(kind, n, mode, k, **kw):
+    pos = (n - 1 - k) if (mode == 1 and k < n) else -1
+    if mode == 1:
+        need = ['end', 'removed the head' if pos == 0 else 'removed the second' if pos == 1 else 'name not in the chain']
+        b = 'chain of %d plugins, removed name %s, %s' % (n, NAMES[k], EN)
+    else:
+        need = ['end', 'name not in the chain'] + (['removed the second'] if n >= 2 and mode != 2 else []) + (['removed the head'] if kind == 'registry' and n >= 1 and mode != 2 else [])
+        b = 'chain of %d plugins, removed name = any 1-byte string%s, %s; checked: %s%s' % (n, ' that no plugin of the chain has' if mode == 2 else '', EN,
+              'members, order and count of the chain' if mode == 0 else 'members, order, count, by-name lookups and the order log of a test', '' if mode == 2 else KF)
+    if kind == 'plugin':
+        b += '; TestPlugin::removePluginByName called on the head of a chain built with addPlugin, name of the head itself excluded'
+    else:
+        b += '; TestRegistry::removePluginByName after installPlugin'
+    return ob('harness_%s_remove_%d_%d_%d' % (kind, n, mode, k), need, bounds=b, unwind=12, **kw)
+SEQS = [('0130', 'a b -a +a'), ('0141', 'a b -b +b'), ('0301', 'a -a +a b'), ('0125', 'a b c -c'), ('0124', 'a b c -b'), ('3043', '-a a -b -a'), ('0143', 'a b -b -a'), ('2150', 'c b -c a')]
+TH = {'tier': 'thorough'}
 SPEC = {
     'property': 'C17',
     'functions_of_interest': ['CppUTestStore', 'SetPointerPlugin', 'TestPlugin', 'NullTestPlugin', 'TestRegistry13installPlugin', 'TestRegistry18removePluginByName',
                              'TestRegistry12resetPlugins', 'TestRegistry12countPlugins', 'TestRegistry15getPluginByName', 'TestRegistry14getFirstPlugin'],
     'assumptions': [
-        'the pointer table is a file static: it is driven only through UT_PTR_SET / CppUTestStore, the SetPointerPlugin constructor (table empty) and postTestAction; "arbitrary table index" is reached by 0..29 earlier redirections of the same test',
+        'the pointer table is a file static: it is driven only through UT_PTR_SET / CppUTestStore, the SetPointerPlugin constructor (table empty) and postTestAction; an arbitrary table index is reached by earlier redirections of the same test; counts of redirections are compile-time constants per obligation (a symbolic count makes the restore loop write through symbolic table entries and does not finish)',
         'the outcome of the test (pass / fail / throw) does not reach SetPointerPlugin::postTestAction (its arguments are unused); that post actions run on every path is property C01',
-        'a redirection beyond the limit leaves the test through PlatformSpecificLongJmp, replaced by a harness hook that checks the postcondition, runs the post action and ends the path; failure-message constructors have empty bodies (C14)',
-        'plugin names are the distinct one-letter names a..d; the name looked up / removed is a symbolic 1-byte string (so absent names and the empty name are inside); installing one plugin object twice is a usage error and excluded',
+        'a redirection beyond the limit leaves the test through PlatformSpecificLongJmp, replaced by a harness hook that checks the postcondition, runs the post action, starts the next test and ends the path; failure-message constructors have empty bodies (C14)',
+        'plugin names are the distinct one-letter names a..d; installing one plugin object twice is a usage error and excluded',
         'TestPlugin::removePluginByName is specified for plugins behind the one it is called on (the callee cannot unlink itself)',
+        'known finding KF_C17_1 (removePluginByName cannot remove a plugin at chain depth >= 3) is excluded by ASSUME under -DKF_C17_1; harness_finding_registry_remove_depth3 / harness_finding_plugin_remove_depth3 in h17.c demonstrate it and are not part of the claim',
     ],
     'groups': [{
         'name': 'c17', 'wrapper': 'w17.cpp', 'harness': 'h17.c',
         'defines': ['-DKF_C17_1'],
         'config': {'empty_regex': ['^_ZN[0-9]+[A-Za-z]*FailureC[12]E']},
-        'obligations': [
-            ob('harness_ptr_restore', bounds='0..29 earlier redirections in the table, then m <= 3 redirections over 2 pointers + filler with fully symbolic targets/values (64-bit), original values symbolic; post action called directly or through the plugin chain', optional_witness=['exit path']),
-            ob('harness_ptr_limit', bounds='n = 0..35 redirections in one test over 2 pointers (target pattern symbolic), limit 32', optional_witness=[]),
-            ob('harness_ptr_two_tests', bounds='first test 0..32 redirections, post action, second test exactly 32 redirections', optional_witness=['exit path']),
-            ob('harness_chain_order', bounds='n <= 4 installed plugins, disable/enable pattern symbolic (4+4 bits), optional resetPlugins', optional_witness=[]),
-            ob('harness_registry_remove', bounds='n <= 4 installed plugins, disable pattern symbolic, removed name = any 1-byte string' + KF, optional_witness=[]),
-            ob('harness_plugin_remove', bounds='chain of n <= 4 plugins built with addPlugin, disable pattern symbolic, removed name = any 1-byte string except the head\'s' + KF, optional_witness=[]),
-            ob('harness_install_remove_sequence', bounds='3 steps, each install (of a plugin not in the chain) or removePluginByName, over 3 plugins; disable pattern symbolic; order log checked after every step' + KF, optional_witness=['three installs', 'ends empty']),
-        ],
+        'obligations':
+            [restore(0), restore(7), restore(29), restore(1, **TH), restore(16, **TH), restore(28, **TH)] +
+            [limit(31), limit(32), limit(33), limit(35), limit(0, **TH), limit(1, **TH), limit(34, **TH)] +
+            [ob('harness_ptr_two_tests_%d' % n, ['end'], bounds='first test %d redirections, post action, second test exactly 32 redirections, post action; targets and values symbolic' % n) for n in (3, 32)] +
+            [ob('harness_chain_order_%d' % n, ['end', 'reset', 'all enabled'] + (['one enabled among several'] if n > 1 else []), unwind=12,
+                bounds='%d installed plugins; disable mask then enable mask symbolic (4+4 bits); resetPlugins afterwards symbolic' % n) for n in range(5)] +
+            [remove('registry', n, 1, k) for n, k in ((1, 0), (2, 1), (2, 0), (3, 2), (3, 1), (4, 3), (4, 2), (0, 0), (2, 3), (4, 4), (4, 5), (3, 4))] +
+            [remove('plugin', n, 1, k) for n, k in ((2, 0), (3, 1), (4, 2), (0, 0), (1, 3), (4, 4), (4, 5))] +
+            [remove('registry', n, 0, 0) for n in (1, 2, 3, 4)] + [remove('plugin', n, 0, 0) for n in (1, 2, 3, 4)] +
+            [remove('registry', n, 3, 0, timeout=1800, **TH) for n in (2, 3, 4)] + [remove('registry', 4, 2, 0, timeout=1800, **TH)] +
+            [remove('plugin', n, 3, 0, timeout=1800, **TH) for n in (2, 3, 4)] + [remove('plugin', 4, 2, 0, timeout=1800, **TH)] +
+            [ob('harness_sequence_' + c, ['end'], unwind=12, bounds='install/remove sequence "%s" over the registry (+x installPlugin, -x removePluginByName), %s; chain, by-name lookups and the order log of a test checked after every step' % (t, EN)) for c, t in SEQS],
     }],
 }
